@@ -28,7 +28,7 @@ func (g *gctx) rollPrimary(n uint32, from int) {
 }
 
 var gatedC14 = []gscen{
-	{"G14-reader-holds-cached-handle-while-another-read-of-that-file-fails", func(g *gctx) {
+	{"G21-reader-holds-cached-handle-while-another-read-of-that-file-fails", func(g *gctx) {
 		// keys 0 and 1 share primary file 0, key 1's record is the last one of that file
 		g.do(0, g.put(0, 30))
 		fill := int(g.pl.Cfg.PrimaryFileSize) - (4 + len(g.u.Keys[0].Raw) + 30) - (4 + len(g.u.Keys[1].Raw))
@@ -115,7 +115,7 @@ func (g *gctx) checkDescriptorsAfterClose(prevGC int) func() {
 }
 
 var gatedC17 = []gscen{
-	{"G15-private-handle-from-disabled-cache-released-after-cache-was-enabled", func(g *gctx) {
+	{"G22-private-handle-from-disabled-cache-released-after-cache-was-enabled", func(g *gctx) {
 		g.afterClose = g.checkDescriptorsAfterClose(debug.SetGCPercent(-1))
 		g.do(0, g.put(0, 30))
 		g.do(0, g.put(1, 30))
@@ -138,7 +138,7 @@ var gatedC17 = []gscen{
 		waitRec(ra, gT)
 		g.do(2, conc.COp{Kind: "get", K: 0})
 	}, func(cfg *gen.Config) { cfg.PrimaryFileSize = 4096; cfg.Primary = gen.MH }},
-	{"G16-readers-while-the-file-cache-is-switched-off-and-on", func(g *gctx) {
+	{"G23-readers-while-the-file-cache-is-switched-off-and-on", func(g *gctx) {
 		g.afterClose = g.checkDescriptorsAfterClose(debug.SetGCPercent(-1))
 		for i := range g.u.Keys {
 			g.do(0, g.put(i, 20+i))
